@@ -40,6 +40,8 @@ import (
 // observable: per operation
 //   res allowedMask rejectedMask fwWaitingMask   then for gang 1..G 12 integers
 //   exists init strict policy min groupMask fromCrd onceSatisfied childrenMask pendingMask waitingMask boundMask
+//   then recKeys recSat (gangCache.gangGroupInfoMap: bit m = a record whose group id has gang mask m exists / is
+//   once-satisfied), then for gang 1..G: recKeyMask recInitialized (the GangGroupInfo object the gang points to)
 // ---------------------------------------------------------------------------------------
 
 const vtC04NS = "ns"
@@ -361,9 +363,62 @@ func (e *vtC04Env) observe(obs []int64) []int64 {
 	return obs
 }
 
+// groupKeyMask maps a gang group id ("ns/g01,ns/g03") to the mask of its gangs (bit 20: an id that is no gang of the case).
+func (e *vtC04Env) groupKeyMask(id string) int64 {
+	var m int64
+	if id == "" {
+		return 0
+	}
+	for _, part := range strings.Split(id, ",") {
+		found := false
+		for j := int64(1); j <= e.G; j++ {
+			if part == vtC04GangID(j) {
+				m |= 1 << uint(j-1)
+				found = true
+			}
+		}
+		if !found {
+			m |= 1 << 20
+		}
+	}
+	return m
+}
+
+// observeRecs projects the cache's gang-group records: recKeys recSat, then per gang (recKeyMask recInitialized).
+func (e *vtC04Env) observeRecs(obs []int64) []int64 {
+	var keys, sat int64
+	e.cache.lock.RLock()
+	infos := make(map[string]*GangGroupInfo, len(e.cache.gangGroupInfoMap))
+	for k, v := range e.cache.gangGroupInfoMap {
+		infos[k] = v
+	}
+	e.cache.lock.RUnlock()
+	for k, v := range infos {
+		m := e.groupKeyMask(k)
+		if m < 0 || m > 61 {
+			m = 61
+		}
+		keys |= 1 << uint(m)
+		if v != nil && v.isGangOnceResourceSatisfied() {
+			sat |= 1 << uint(m)
+		}
+	}
+	obs = append(obs, keys, sat)
+	sums := e.mgr.GetGangSummaries()
+	for g := int64(1); g <= e.G; g++ {
+		s, ok := sums[vtC04GangID(g)]
+		if !ok || s.GangGroupInfo == nil {
+			obs = append(obs, 0, 0)
+			continue
+		}
+		obs = append(obs, e.groupKeyMask(s.GangGroupInfo.GangGroupId), vtB(s.GangGroupInfo.IsInitialized()))
+	}
+	return obs
+}
+
 func vtC04Exec(in []int64) []int64 {
 	e, ops := vtC04NewEnv(in)
-	obs := make([]int64, 0, len(ops)*(4+12*int(e.G)))
+	obs := make([]int64, 0, len(ops)*(6+14*int(e.G)))
 	for _, op := range ops {
 		e.h.allowed, e.h.rejected = 0, 0
 		res := e.apply(op)
@@ -373,6 +428,7 @@ func vtC04Exec(in []int64) []int64 {
 		}
 		obs = append(obs, res, e.h.allowed, e.h.rejected, fw)
 		obs = e.observe(obs)
+		obs = e.observeRecs(obs)
 	}
 	return obs
 }
